@@ -369,6 +369,14 @@ func scenarioC13(c *hlib.RunCtx) *hlib.Violation {
 			// size classes: tiny .. just under the 100 KiB upload limit (merged lines above 64 KiB)
 			if len(r.Programs) > 0 && t.Bool(1, 6) {
 				frames := strings.Repeat("example.com/very/long/import/path.Function:+12,+0x1234\n", 1250+t.Draw(500))
+				if t.Bool(1, 3) {
+					// A body below the upload limit whose stored form is above it: the
+					// server stores what it decoded, encoded again, and < and > then
+					// take six bytes each (1500..1749 frames: 83..97 KiB as sent with
+					// the characters themselves, 98..114 KiB as stored and merged).
+					frames = strings.Repeat("example.com/very/long/import/path.Fn[<T>]:+12,+0x1234\n", 1500+t.Draw(250))
+					s.Probe("stored-form-above-the-upload-limit")
+				}
 				r.Programs[0].Stacks["crash/crash\n"+frames] = 1
 			}
 			js, _ := json.Marshal(r)
